@@ -187,6 +187,7 @@ class Executor:
             bf = self._base_facts()
             fs = z3.Solver()
             fs.set('rlimit', 400000)
+            fs.set('timeout', 1500)      # feasibility pruning only: unknown / timeout keeps the path (sound, merely more paths)
             fs.add(*bf)
             sub = {}
             for a in facts.class_names:
@@ -251,13 +252,43 @@ class Executor:
 
     # ---- feasibility -----------------------------------------------------------------------------------------------
     def feasible(self, st):
+        """path pruning only (unknown keeps the path).  A fresh solver per query: the shared incremental solver was observed to hang
+        (ignoring its timeout) on string-heavy path conditions."""
         self.stats['feas_checks'] += 1
-        self.feas.push()
+        if not hasattr(self, '_feas_core'):
+            names = [n for n in self.facts.class_names if self.facts.issub(n, 'BaseException') or n in
+                     ('object', 'type', 'dict', 'list', 'tuple', 'str', 'set', 'frozenset', 'OrderedDict', 'int', 'bool', 'NoneType', 'core.TType', 'core.Spec', 'core.Path')]
+            self._feas_core = [self.sub_fact[(a, b)] for a in names for b in names]
+            sing = [const(n) for n in self.facts.singletons] + [Z.NONE, Z.TRUE, Z.FALSE]
+            self._feas_core.append(z3.Distinct(*(sing + [self.cls_const(n) for n in self.facts.class_names])))
+        if not hasattr(self, '_feas_solver'):
+            self._feas_solver = z3.Solver()
+            self._feas_solver.set('timeout', 400)
+            self._feas_solver.add(*self._feas_core)
+            self._feas_n = 0
+        self._feas_n += 1
+        if self._feas_n % 400 == 0:          # incremental solvers degrade after many push/pop rounds: start over now and then
+            self._feas_solver = z3.Solver()
+            self._feas_solver.set('timeout', 400)
+            self._feas_solver.add(*self._feas_core)
+        s = self._feas_solver
+        import threading
+        timer = threading.Timer(1.5, z3.main_ctx().interrupt)      # watchdog: z3 was observed to ignore its own timeout here
+        timer.start()
+        s.push()
         try:
-            self.feas.add(*st.pc)
-            r = self.feas.check()
+            s.add(*st.pc)
+            r = s.check()
+        except z3.Z3Exception:
+            r = z3.unknown
         finally:
-            self.feas.pop()
+            timer.cancel()
+            try:
+                s.pop()
+            except z3.Z3Exception:
+                self._feas_solver = z3.Solver()
+                self._feas_solver.set('timeout', 400)
+                self._feas_solver.add(*self._feas_core)
         return r != z3.unsat
 
     def split(self, st, cond):
